@@ -37,6 +37,9 @@ def main():
     checks = sys.argv[4:]
     seed = os.path.abspath(seed)
     scr = tempfile.mkdtemp(prefix="nvkeep.", dir="/var/tmp")
+    # work on a private copy of the seed (the seed may be /verif/seeded/<name> itself)
+    shutil.copytree(seed, os.path.join(scr, "seedcopy"))
+    seed = os.path.join(scr, "seedcopy")
     meta = {"name": name, "breaks_property": prop, "ran": []}
     try:
         src = os.path.join(scr, "repo")
